@@ -45,6 +45,9 @@ pub struct ParkState {
     pub controlled: HashSet<u64>,
     /// sequence of (thread, point) passages in execution order
     pub log: Vec<(u64, &'static str)>,
+    /// a thread the harness did not start (flexi_logger's specfile watcher) that arrives at
+    /// "spec.enter" is taken under control with this id, for one call
+    pub adopt: Option<u64>,
 }
 
 pub struct H {
@@ -252,13 +255,23 @@ impl Handler for H {
     }
 }
 
+/// ids from here on are adopted threads (see ParkState::adopt)
+pub const ADOPTED_BASE: u64 = 100;
+
 impl H {
     fn park_point(&self, name: &'static str) -> std::io::Result<()> {
-        let id = PARK_ID.with(std::cell::Cell::get);
-        if id == 0 {
-            return Ok(());
-        }
+        let mut id = PARK_ID.with(std::cell::Cell::get);
         let mut pk = self.park.lock().unwrap_or_else(|p| p.into_inner());
+        if id == 0 {
+            match (name, pk.adopt) {
+                ("spec.enter", Some(a)) => {
+                    pk.adopt = None;
+                    PARK_ID.with(|c| c.set(a));
+                    id = a;
+                }
+                _ => return Ok(()),
+            }
+        }
         if !pk.controlled.contains(&id) {
             return Ok(());
         }
@@ -268,6 +281,11 @@ impl H {
             if pk.granted.remove(&id) {
                 pk.parked.remove(&id);
                 pk.log.push((id, name));
+                if name == "spec.exit" && id >= ADOPTED_BASE {
+                    // the adopted thread's call is over: nobody else would sign it off
+                    pk.controlled.remove(&id);
+                    PARK_ID.with(|c| c.set(0));
+                }
                 self.park_cv.notify_all();
                 return Ok(());
             }
